@@ -20,7 +20,8 @@ RULE = (
     "around their minimum versions, XTVERSION in 'name(version)' or 'name version' form or unsupported with "
     "TERM_PROGRAM set, kitty graphics reply or not, DA1 or not): style support and automatic style selection are "
     "compared with the documented decision table; then, in the same process, value cases re-script the terminal "
-    "(rgb: replies with 1..4 hex digits per component, ST or BEL, replies delayed by up to 0.4 x timeout, every "
+    "(rgb: replies with 1..4 hex digits per component, ST or BEL, replies delayed by up to 0.4 x timeout or arriving "
+    "with no latency at all (before the library's next system call), every "
     "subset of unsupported queries, pixel size by ioctl / XTWINOPS 16 / XTWINOPS 14 / not at all, window-size swap, "
     "queries disabled) and compare colours, name, version and cell size with the script, the unread-input count "
     "with zero and the elapsed time with the timeout; distinct = distinct scripted-terminal descriptors"
@@ -91,6 +92,24 @@ def plan(tier, seed):
             kw["kitty_graphics"] = rnd.choice(["EINVAL:Unsupported action: q", "ENOTSUPPORTED:graphics are switched off", "EBADF:no such channel"])
         shard = dict(persona="other", persona_kw=kw, seed=seed, index=i, env_term_program=None if xt else rnd.choice([None, (name, version), ("Apple_Terminal", "440"), (name, None)]), timeout=rnd.choice([0.25, 0.4]))
         shards.append(shard)
+    # a fixed set of corner identities, in every run
+    def fixed(**kw):
+        d = dict(name="foot", version="1.16.2", xtversion=True, xtversion_style="paren", da1=True, kitty_graphics=False)
+        d.update(kw)
+        return d
+
+    corners = [
+        (fixed(name="Konsole", version=None, xtversion=False, kitty_graphics=False), ("Konsole", None)),
+        (fixed(name="Konsole", version=None, xtversion=False, kitty_graphics=True), ("Konsole", None)),
+        (fixed(name="kitty", version=None, xtversion=False, kitty_graphics=True), ("kitty", None)),
+        (fixed(name="xterm.js", version="5.3.0"), None),
+        (fixed(name="st-term", version="0.9", xtversion_style="space"), None),
+        (fixed(name="foot", version=None), None),
+        (fixed(name="kitty", version="0.30.1", kitty_graphics="EINVAL:Unsupported action: q"), None),
+        (fixed(name="Konsole", version="23.08.1", xtversion_style="space", kitty_graphics="ENOTSUPPORTED:c"), None),
+    ]
+    for j, (kw, tp) in enumerate(corners):
+        shards.append(dict(persona="other", persona_kw=kw, seed=seed, index=len(shards), env_term_program=tp, timeout=0.4))
     return shards
 
 
@@ -138,8 +157,13 @@ def support_case(shard, env, res):
         else:
             name = version = None
     t0 = time.monotonic()
-    auto = ti.auto_image_class()
-    got = (KittyImage.is_supported(), ITerm2Image.is_supported())
+    try:
+        auto = ti.auto_image_class()
+        got = (KittyImage.is_supported(), ITerm2Image.is_supported())
+    except Exception as e:
+        # whatever the terminal says (or does not say), detection falls back to defaults
+        res.violation("C12:support-detection-raised", "%s: %s [%s]" % (type(e).__name__, e, dict(kw, env=shard.get("env_term_program"))), dict(kind="support", shard=shard))
+        raise
     dt = time.monotonic() - t0
     exp = expected_support(name, version, kw["kitty_graphics"])
     exp_auto = KittyImage if exp[0] else ITerm2Image if exp[1] else BlockImage
@@ -178,6 +202,26 @@ def rgb_reply(rnd, digits):
         comps = [rnd.choice(["0" * w, "f" * w, "F" * w, "8" + "0" * (w - 1)]) for w in widths]
     exp = tuple(int(c, 16) * 255 // ((1 << (4 * len(c))) - 1) for c in comps)
     return comps, exp
+
+
+class InstantReplies:
+    """Stand-in for the ``os`` name in term_image.utils: every write to the terminal returns
+    only after the scripted terminal has seen it and written its replies -- a terminal with
+    no latency at all (the replies are there before the library's next system call)."""
+
+    def __init__(self, env):
+        self._env = env
+
+    def write(self, fd, data):
+        n = os.write(fd, data)
+        try:
+            self._env.sync(10)
+        except Exception:
+            pass
+        return n
+
+    def __getattr__(self, name):
+        return getattr(os, name)
 
 
 def value_case(rnd, shard, env, res, name, version, attempt=0):
@@ -246,13 +290,21 @@ def value_case(rnd, shard, env, res, name, version, attempt=0):
     env.flush_input()
     q0 = len(env.queries)
     errs = []
-    t0 = time.monotonic()
-    colours = utils.get_fg_bg_colors()
-    t1 = time.monotonic()
-    nv = utils.get_terminal_name_version()
-    t2 = time.monotonic()
-    cell = utils.get_cell_size()
-    t3 = time.monotonic()
+    instant = not delays and rnd.random() < 0.4
+    saved_os = utils.os
+    if instant:
+        utils.os = InstantReplies(env)
+        res.count("value cases with zero-latency replies")
+    try:
+        t0 = time.monotonic()
+        colours = utils.get_fg_bg_colors()
+        t1 = time.monotonic()
+        nv = utils.get_terminal_name_version()
+        t2 = time.monotonic()
+        cell = utils.get_cell_size()
+        t3 = time.monotonic()
+    finally:
+        utils.os = saved_os
     res.count("query results compared with the script", 3)
     if disabled:
         exp_col = (None, None)
